@@ -278,33 +278,62 @@ def g_ring(ring):
     return '[' + ';'.join('(%s,%d)' % (z(t), h) for t, h in sorted(ring)) + ']'
 
 
-def g_strategy(strat):
+def g_strategy(strat, short=False):
     """(model strategy, spec placement) -- both receive the number of FULL replicas"""
     if strat[0] == 'simple':
         r = full_replicas(strat[1])
-        return '(Simple %s, SimpleStrategy %s)' % (z(r), z(r))
+        return ('(sS %s)' % z(r)) if short else '(Simple %s, SimpleStrategy %s)' % (z(r), z(r))
     cfg = '[' + ';'.join('(%s,%s)' % (z(int(d)), z(full_replicas(v))) for d, v in strat[1].items()) + ']'
-    return '(NTS %s, NetworkTopologyStrategy %s)' % (cfg, cfg)
+    return ('(sN %s)' % cfg) if short else '(NTS %s, NetworkTopologyStrategy %s)' % (cfg, cfg)
 
 
 def g_obs(obs):
     return '[' + ';'.join('(%s,%s)' % (z(t), zlist(got)) for t, got in obs) + ']'
 
 
+def g_code(obs):
+    # the observed replica lists of one strategy as ONE integer: base-16 digits, host+1, 0 closes a list (cheap to parse)
+    digits = []
+    for _, got in obs:
+        for h in got:
+            assert 0 <= h < 15
+            digits.append(h + 1)
+        digits.append(0)
+    n = 0
+    for i, d in enumerate(digits):
+        n |= d << (4 * i)
+    return '(%d,%d)' % (len(digits), n)
+
+
 PRELUDE = r'''
+Fixpoint dec_obs (fuel : nat) (n : Z) (cur : list Z) (acc : list (list Z)) : list (list Z) :=
+  match fuel with
+  | O => rev acc
+  | S f => let d := n mod 16 in let n' := n / 16 in
+           if d =? 0 then dec_obs f n' [] (rev cur :: acc) else dec_obs f n' ((d - 1) :: cur) acc
+  end.
+Definition decode (c : Z * Z) : list (list Z) := dec_obs (Z.to_nat (fst c)) (snd c) [] [].
+Definition sS (r : Z) : strategy * placement := (Simple r, SimpleStrategy r).
+Definition sN (c : list (Z * Z)) : strategy * placement := (NTS c, NetworkTopologyStrategy c).
+Definition case_t : Type := topo_t * ring_t * list Z * list ((strategy * placement) * (Z * Z)).
 Definition obs_model (dd : bool) (loc : topo_t) (ring : ring_t) (s : strategy) (o : Z * list Z) : bool :=
   list_eqb (get_replicas (replica_map dd loc s ring) (map fst ring) (fst o)) (snd o).
 Definition obs_spec (loc : topo_t) (ring : ring_t) (p : placement) (o : Z * list Z) : bool :=
   nodupb (snd o) && set_eqb (snd o) (natural_endpoints loc p ring (fst o)).
-Definition chk_model (dd : bool) (c : topo_t * ring_t * list ((strategy * placement) * list (Z * list Z))) : bool :=
-  let '(loc, ring, l) := c in forallb (fun e => forallb (obs_model dd loc ring (fst (fst e))) (snd e)) l.
-Definition chk_spec (c : topo_t * ring_t * list ((strategy * placement) * list (Z * list Z))) : bool :=
-  let '(loc, ring, l) := c in forallb (fun e => forallb (obs_spec loc ring (snd (fst e))) (snd e)) l.
-Definition chk_both (dd : bool) c := chk_model dd c && chk_spec c.
+Definition chk_with (f : topo_t -> ring_t -> strategy * placement -> Z * list Z -> bool) (c : case_t) : bool :=
+  let '(loc, ring, qs, l) := c in
+  forallb (fun e => let got := decode (snd e) in
+                    Nat.eqb (List.length got) (List.length qs) && forallb (f loc ring (fst e)) (combine qs got)) l.
+Definition chk_model (dd : bool) : case_t -> bool := chk_with (fun loc ring sp o => obs_model dd loc ring (fst sp) o).
+Definition chk_spec : case_t -> bool := chk_with (fun loc ring sp o => obs_spec loc ring (snd sp) o).
+Definition chk_both (dd : bool) (c : case_t) : bool := chk_model dd c && chk_spec c.
 '''
 
 
 def g_case(layout, ring, per_strategy):
-    """per_strategy: [(strat, [(t, got), ...]), ...]"""
-    return '(%s, %s, [%s])' % (g_layout(layout), g_ring(ring),
-                               ';'.join('(%s,%s)' % (g_strategy(s), g_obs(o)) for s, o in per_strategy))
+    # per_strategy: [(strat, [(t, got), ...]), ...]  -- every strategy observed at the same tokens, in the same order
+    qs = [t for t, _ in per_strategy[0][1]] if per_strategy else []
+    for _, o in per_strategy:
+        assert [t for t, _ in o] == qs
+    return '(%s, %s, %s, [%s])' % (g_layout(layout), g_ring(ring), zlist(qs),
+                                   ';'.join('(%s,%s)' % (g_strategy(s, True), g_code(o)) for s, o in per_strategy))
